@@ -50,7 +50,9 @@ pub fn encrypt_frm_data_payload(
         let j = i & 0x0f;
         if j == 0 {
             a[15] = ctr;
-            ctr += 1;
+            // the block counter is a single byte in the Ai block; it wraps for (invalid) payloads
+            // longer than 255 blocks instead of overflowing
+            ctr = ctr.wrapping_add(1);
             s = a;
             crypto.encrypt_block(&mut s);
         }
